@@ -127,8 +127,8 @@ struct WsBatch {
 	n: usize,
 	kind: IdKind,
 	reply: String,
-	/// a call is made (and answered) first, so that the batch does not start at id 0
-	used_client: bool,
+	/// this many calls are made (and answered) first, so that the batch does not start at id 0
+	used_client: usize,
 }
 
 fn mask_none(l: &str) -> bool {
@@ -147,16 +147,9 @@ impl Scenario for WsBatch {
 		mask_none
 	}
 	fn setup(&self) -> CliState {
-		let (ops, env, late_after) = if self.used_client {
-			(
-				vec![FeOp::Call, FeOp::LateBatch(self.n)],
-				vec![EnvEvent::Answer { msg: 0, kind: clim::AnswerKind::Ok }, EnvEvent::Raw { after: 2, text: self.reply.clone() }],
-				1,
-			)
-		} else {
-			(vec![FeOp::Batch(self.n)], vec![EnvEvent::Raw { after: 1, text: self.reply.clone() }], 0)
-		};
-		clim::setup(&CliScenarioCfg { rx_split: false, ping_ms: None, warmup: 0, id_kind: self.kind, ops, env, fail_send_at: None, tx_points: false, buffer_cap: 4, late_after })
+		let ops = vec![FeOp::Batch(self.n)];
+		let env = vec![EnvEvent::Raw { after: self.used_client + 1, text: self.reply.clone() }];
+		clim::setup(&CliScenarioCfg { rx_split: false, ping_ms: None, warmup: self.used_client, id_kind: self.kind, ops, env, fail_send_at: None, tx_points: false, buffer_cap: 4, late_after: 0 })
 	}
 	fn judge(&self, st: CliState, _t: &[String], panics: &[String], _s: Status) -> Verdict {
 		let l = st.log.lock().unwrap();
@@ -230,7 +223,7 @@ impl HttpHarness {
 		HttpHarness { rt, svc, kind }
 	}
 	/// a fresh client per case so that the batch starts at id 0
-	fn batch(&self, n: usize, reply: &str, used_client: bool) -> (Result<String, String>, Vec<String>) {
+	fn batch(&self, n: usize, reply: &str, used_client: usize) -> (Result<String, String>, Vec<String>) {
 		*self.svc.reply.lock().unwrap() = reply.to_string();
 		self.svc.seen.lock().unwrap().clear();
 		let _e = self.rt.enter();
@@ -240,7 +233,7 @@ impl HttpHarness {
 			.build("http://localhost:1")
 			.expect("http client builds");
 		let res = self.rt.block_on(async {
-			if used_client {
+			for _ in 0..used_client {
 				let _: Value = client.request("warm", rpc_params![]).await.expect("warm-up call");
 			}
 			let mut b = BatchRequestBuilder::new();
@@ -309,22 +302,30 @@ impl Scenario for ConcurrentBatches {
 
 pub fn check(rep: &Reporter) {
 	let thorough = rep.tier.thorough();
-	let nmax = if thorough { 4 } else { 3 };
+	let nmax = if thorough { 5 } else { 4 };
 	rep.set_rule(&format!(
-		"batch size n = 1..{nmax}; server reply = every sequence of length 0..n+1 over {{ok answer for entry j, error answer for entry j (j<n), answer with an id outside the batch, answer with a non-numeric id}} (all permutations, subsets, duplications); × id kind {{number, string}} × {{fresh client (first id 0), used client (first id 1, plus an answer whose id lies just below the batch)}} × client {{async client over CLI-MEM, HTTP client over a scripted tower layer}}; plus SCHED: 2 batches and a call in flight with reversed reply arrays under every delivery order. Oracle: positional reference (entry i may only hold an answer delivered for id start+i, or the error placeholder; exact permutations must succeed exactly; success/failure counts and into_ok() agree with the entries)."
+		"batch size n = 1..{nmax}; server reply = every sequence of length 0..n+1 over {{ok answer for entry j, error answer for entry j (j<n), answer with an id outside the batch, answer with a non-numeric id}} (all permutations, subsets, duplications); × id kind {{number, string}} × {{fresh client (first id 0), used client (first id 1{}; plus an answer whose id lies just below the batch)}} × client {{async client over CLI-MEM, HTTP client over a scripted tower layer}}; plus SCHED: 2 batches and a call in flight with reversed reply arrays under every delivery order. Oracle: positional reference (entry i may only hold an answer delivered for id start+i, or the error placeholder; exact permutations must succeed exactly; success/failure counts and into_ok() agree with the entries).",
+		if thorough { ", first id 9 so that string ids cross \"9\"/\"10\"" } else { " and, for n ≤ 2, first id 9" }
 	));
-	rep.assume("each case uses a fresh client so the batch ids start at 0");
+	rep.assume("each case uses a fresh client so the batch ids start at 0, 1 or 9");
 	sched::install_hooks();
 	for n in 1..=nmax {
-		for used in [false, true] {
-			if used && n > if thorough { 3 } else { 2 } {
+		for used in [0usize, 1, 9] {
+			let limit = match (used, thorough) {
+				(0, _) => nmax,
+				(1, true) => 4,
+				(1, false) => 3,
+				(_, true) => 3,
+				(_, false) => 2,
+			};
+			if n > limit {
 				continue;
 			}
 			let mut alpha = alphabet(n);
-			if used {
+			if used > 0 {
 				alpha.push(Item::Lower);
 			}
-			let start: u64 = if used { 1 } else { 0 };
+			let start: u64 = used as u64;
 			let total = seq_count(alpha.len(), n + 1);
 			for kind in [IdKind::Number, IdKind::String] {
 				par_for(rep, total, 64, || HttpHarness::new(kind), |i, http, local: &mut Local| {
